@@ -420,6 +420,27 @@ let op_pager_select = function
                | Pager.ARaw -> "R" | Pager.ANoInit -> "N" | Pager.AQuit -> "Q") args))
   | _ -> "BADARGS"
 
+(* ---- superimposition of syntax and diff styles (C15)
+   superimpose <fg or '-':cp.cp.cp,...> <fg|bg|attrs|syn:cp.cp,...>  (fg/bg: number or '-')
+   -> cells ch,fg,bg,attrs;... *)
+let op_superimpose = function
+  | [ syn; diff ] ->
+      let cps x = if x = "" then [] else L.map (fun c -> n_of_int (int_of_string c)) (S.split_on_char '.' x) in
+      let opt x = if x = "-" then None else Some (n_of_int (int_of_string x)) in
+      let split2 e = let i = S.index e ':' in (S.sub e 0 i, S.sub e (i + 1) (S.length e - i - 1)) in
+      let ssec e = let (a, b) = split2 e in (opt a, cps b) in
+      let dsec e = let (a, b) = split2 e in
+        (match S.split_on_char '|' a with
+         | [ f; g; at; sy ] -> ({ Superimpose.fg = opt f; Superimpose.bg = opt g; Superimpose.attrs = n_of_int (int_of_string at);
+                                 Superimpose.syn = (sy = "1") }, cps b)
+         | _ -> failwith "bad diff style") in
+      let lst f x = if x = "" then [] else L.map f (S.split_on_char ',' x) in
+      let out = Superimpose.cells (Superimpose.superimpose (lst ssec syn) (lst dsec diff)) in
+      let o = function None -> "-" | Some n -> string_of_int (int_of_n n) in
+      "OK\t" ^ S.concat ";" (L.map (fun (((c, f), g), a) ->
+          string_of_int (int_of_n c) ^ "," ^ o f ^ "," ^ o g ^ "," ^ string_of_int (int_of_n a)) out)
+  | _ -> "BADARGS"
+
 (* blame_run n keys gitflags *)
 let op_blame_run = function
   | [ n; keys; flags ] ->
@@ -442,6 +463,7 @@ let op_blame_spec = function
 let dispatch = function
   | "wrap_line" :: args -> op_wrap_line args
   | "truncate" :: args -> op_truncate args
+  | "superimpose" :: args -> op_superimpose args
   | "pager_select" :: args -> op_pager_select args
   | "hunk_numbers" :: args -> op_hunk_numbers args
   | "bump" :: args -> op_bump args
